@@ -1,8 +1,8 @@
 CONSTANTS
-  Enabled = {"R1", "R2", "R2x", "S1", "S1x", "S2", "M1", "S3"}
-  MaxBlocks = 4
+  Enabled = {"R1", "R2", "R2x", "S1", "S1x", "S2", "M1", "S3", "S4"}
+  MaxBlocks = 3
   MaxBulk = 1
-  MaxSteps = 7
+  MaxSteps = 6
 INIT Init
 NEXT Next
 VIEW View
